@@ -2,6 +2,7 @@ package sym
 
 import (
 	"fmt"
+	"math"
 	"os"
 	"strings"
 	"go/token"
@@ -117,6 +118,15 @@ func (ex *Exec) valueEq(st *State, a, b Value) *smt.Term {
 		return C.BoolConst(x.Fn == nil && y.Fn == nil)
 	case nil:
 		return C.BoolConst(b == nil)
+	case Native:
+		if ra, ok := x.V.(rtypeRef); ok {
+			if nb, ok := b.(Native); ok {
+				if rb, ok := nb.V.(rtypeRef); ok {
+					return C.BoolConst(types.Identical(ra.T, rb.T))
+				}
+			}
+			return C.False
+		}
 	}
 	ex.unsupported(st, fmt.Sprintf("== on %T", a))
 	return nil
@@ -289,7 +299,39 @@ func (ex *Exec) convert(st *State, from, to types.Type, x Value) Value {
 	if isFloat(from) {
 		t := x.(*smt.Term)
 		if isFloat(to) {
+			if tb, ok := to.Underlying().(*types.Basic); ok && tb.Kind() == types.Float32 {
+				if fb, ok := from.Underlying().(*types.Basic); !ok || fb.Kind() != types.Float32 {
+					return C.FPRound32(t) // float32 values are carried as float64 terms holding a float32-representable value
+				}
+			}
 			return t
+		}
+		if tw, tsigned, ok := intWidth(to); ok && !(tsigned && tw == 64) {
+			// in range: truncation towards zero (language specification); out of range / NaN: the result is
+			// implementation-specific, modelled as an arbitrary value of the target type
+			tr := C.FPUn(smt.OFTrunc, t)
+			var inr, val *smt.Term
+			if tsigned {
+				lim := float64(int64(1) << uint(tw-1))
+				inr = C.And(C.FPCmp(smt.OFLe, C.FPConst(-lim), tr), C.FPCmp(smt.OFLt, tr, C.FPConst(lim)))
+				val = C.FPToSBV(t, tw)
+			} else {
+				lim := 18446744073709551616.0
+				if tw < 64 {
+					lim = float64(uint64(1) << uint(tw))
+				}
+				inr = C.And(C.FPCmp(smt.OFLe, C.FPConst(0), tr), C.FPCmp(smt.OFLt, tr, C.FPConst(lim)))
+				val = C.FPToUBV(t, tw)
+			}
+			if inr.IsConst() && inr.Val == 1 && t.IsConst() {
+				f := math.Float64frombits(t.Val)
+				if tsigned {
+					return C.BVConst(uint64(int64(f)), tw)
+				}
+				return C.BVConst(uint64(f), tw)
+			}
+			any := ex.nondet(st, fmt.Sprintf("conv_out_of_range_%d", len(st.Nondet)), smt.BV(tw))
+			return C.Ite(inr, val, any)
 		}
 		if tw, tsigned, ok := intWidth(to); ok && tsigned && tw == 64 {
 			// amd64 semantics: out of range / NaN -> 0x8000000000000000
@@ -930,6 +972,16 @@ func (ex *Exec) builtin(st *State, name string, args []Value, call ssa.CallInstr
 		}
 		return args[0]
 	case "recover":
+		// effective only when called directly by a deferred function run because of a panic
+		if g := st.g(); g.Paniced && len(g.Frames) == g.UnwindLevel+1 && g.Frames[len(g.Frames)-1].IsDefer {
+			g.Paniced = false
+			g.Recovered = true
+			v := g.Panic
+			if iv, ok := v.(Iface); ok {
+				return iv
+			}
+			return Iface{}
+		}
 		return Iface{}
 	case "print", "println":
 		if os.Getenv("GOSYM_DEBUG") != "" { // harness debugging aid: concrete operands are shown
